@@ -16,6 +16,9 @@ def main():
         ok = mod.replay(rec["data"])
         print("REPRODUCED" if ok else "not reproduced")
         return 1 if ok else 0
+    if sys.argv[1] == "selftest":
+        from engine import selftest
+        return selftest.main()
     prop = sys.argv[1].upper()
     mod = importlib.import_module("checks." + prop.lower())
     return mod.main(sys.argv[2:])
